@@ -47,7 +47,7 @@ WireStep(signs, m) ==
 (***************************************************************************)
 (* Port setup                                                              *)
 (***************************************************************************)
-Bauds == {"110", "300", "600", "1200", "2400", "4800", "9600", "19200", "38400", "57600", "115200", "other:250000", "other:1"}
+Bauds == {"110", "300", "600", "1200", "2400", "4800", "9600", "19200", "38400", "57600", "115200", "other:250000", "other:1", "other:19200", "other:4294986496"}
 CharSizes == {"5", "6", "7", "8"}
 Parities == {"none", "odd", "even"}
 StopBitsS == {"1", "2"}
